@@ -315,11 +315,17 @@ pub struct UnitCase { pub input: String, pub output: String, pub class: String }
 
 /// Run one history against the real state machine and cut it into per-unit cases.
 pub fn run_history(rng: &mut Rng, init: Init, nunits: usize, oneshot: bool) -> (Vec<UnitCase>, Carry) {
-    run_history_opt(rng, init, nunits, oneshot, false)
+    run_history_opt(rng, init, nunits, oneshot, false, None)
+}
+
+/// The same history (same seed), but the process dies once the trace has `crash_at` lines: returns the units
+/// completed before that and what survives — the committed storage at that instant.
+pub fn run_history_crash(rng: &mut Rng, init: Init, nunits: usize, oneshot: bool, crash_at: usize) -> (Vec<UnitCase>, Carry) {
+    run_history_opt(rng, init, nunits, oneshot, false, Some(crash_at))
 }
 
 /// `healthy`: generate exactly the same history, but let every storage operation succeed.
-pub fn run_history_opt(rng: &mut Rng, init: Init, nunits: usize, oneshot: bool, healthy: bool) -> (Vec<UnitCase>, Carry) {
+pub fn run_history_opt(rng: &mut Rng, init: Init, nunits: usize, oneshot: bool, healthy: bool, crash_at: Option<usize>) -> (Vec<UnitCase>, Carry) {
     let hub: H = Arc::new(Mutex::new(Hub::new(init.wall, init.mono)));
     { let mut h = hub.lock().unwrap(); h.committed = init.committed.clone(); h.cup_sign = init.cup; }
     if let Some(cfg) = &init.mock {
@@ -356,12 +362,13 @@ pub fn run_history_opt(rng: &mut Rng, init: Init, nunits: usize, oneshot: bool, 
 
     let mut runner = if oneshot {
         let stream = futures::executor::block_on(builder.oneshot_check());
-        Runner { hub: hub.clone(), stream: Box::pin(stream), handle: None, ctls: vec![], replies: vec![], flag, ended: false, polls: 0, stalled_wakeups: 0, contend: None, storage: None, app_set: None, contended: 0 }
+        Runner { hub: hub.clone(), stream: Box::pin(stream), handle: None, ctls: vec![], replies: vec![], flag, ended: false, polls: 0, stalled_wakeups: 0, contend: None, storage: None, app_set: None, contended: 0, crash_at: None }
     } else {
         let (handle, stream) = futures::executor::block_on(builder.start());
-        Runner { hub: hub.clone(), stream: Box::pin(stream), handle: Some(handle), ctls: vec![], replies: vec![], flag, ended: false, polls: 0, stalled_wakeups: 0, contend: None, storage: None, app_set: None, contended: 0 }
+        Runner { hub: hub.clone(), stream: Box::pin(stream), handle: Some(handle), ctls: vec![], replies: vec![], flag, ended: false, polls: 0, stalled_wakeups: 0, contend: None, storage: None, app_set: None, contended: 0, crash_at: None }
     };
 
+    runner.crash_at = crash_at;
     // third perturbation: lock contention in mid-flight (see `Runner::contend`)
     if rng.chance(1, 4) {
         let prefix = rng.pick(&["E result", "E proto", "E sched", "E state", "E progress", "E response"]).to_string();
@@ -429,6 +436,7 @@ pub fn run_history_opt(rng: &mut Rng, init: Init, nunits: usize, oneshot: bool, 
         let mut rsteps_done: Vec<(Step, (i128, i128))> = vec![];
         let end_kind = loop {
             let r = runner.run_unit();
+            if r == UnitEnd::Crashed { break r; }
             if r != UnitEnd::Stalled { break r; }
             let in_reboot = hub.lock().unwrap().reboot_phase;
             if !in_reboot { break r; }
@@ -463,6 +471,7 @@ pub fn run_history_opt(rng: &mut Rng, init: Init, nunits: usize, oneshot: bool, 
             rsteps_done.push((step.clone(), d));
             hub.lock().unwrap().env.rsteps.push_back((step, d));
         };
+        if end_kind == UnitEnd::Crashed { break; }      // the unit in flight is lost with the process
         let (snap_after, jit) = {
             let h = hub.lock().unwrap();
             if h.boundaries.len() > k { (h.boundaries[k].clone(), h.jit_log[k].clone()) } else { (h.snapshot(), h.jitters.clone()) }
@@ -483,7 +492,7 @@ pub fn run_history_opt(rng: &mut Rng, init: Init, nunits: usize, oneshot: bool, 
         if last.end_kind == UnitEnd::Stalled || last.end_kind == UnitEnd::StreamEnded { break; }
     }
     // a final peek so that the last unit's end-of-unit context is observable
-    if !oneshot && !runner.ended && done.last().map(|d| d.end_kind == UnitEnd::Idle || d.end_kind == UnitEnd::Negative).unwrap_or(false) {
+    if crash_at.is_none() && !oneshot && !runner.ended && done.last().map(|d| d.end_kind == UnitEnd::Idle || d.end_kind == UnitEnd::Negative).unwrap_or(false) {
         runner.run_unit();
     }
     let all_replies = runner.replies.clone();
@@ -512,7 +521,7 @@ pub fn run_history_opt(rng: &mut Rng, init: Init, nunits: usize, oneshot: bool, 
                 None => "?".into(),
             }
         };
-        let kind = match d.end_kind { UnitEnd::Idle | UnitEnd::Negative => "completed", UnitEnd::StreamEnded => if oneshot { "completed" } else { "ended" }, UnitEnd::Stalled => "stalled" };
+        let kind = match d.end_kind { UnitEnd::Idle | UnitEnd::Negative => "completed", UnitEnd::StreamEnded => if oneshot { "completed" } else { "ended" }, UnitEnd::Stalled | UnitEnd::Crashed => "stalled" };
         if lines.is_empty() && d.end_kind == UnitEnd::StreamEnded && !oneshot {
             out = vec!["Z notstarted".into()];
         } else {
@@ -534,6 +543,25 @@ pub fn run(o: &Opts, rng: &mut Rng) -> Sink {
         let nunits = if oneshot { 1 } else { 1 + rng.below(4) as usize };
         let mut r = rng.fork();
         let res = std::panic::catch_unwind(std::panic::AssertUnwindSafe(|| {
+            if r.chance(1, 6) {
+                // crash points: run the history once to learn how long its trace is, run it again from the same seed and
+                // let the process die at a random environment interaction; a new state machine is then built on what
+                // survives (the committed storage at that instant) — its first unit is the case
+                let seed = r.next();
+                let total: usize = { let mut r1 = Rng::new(seed); let init = gen_init(&mut r1); let (cs, _) = run_history(&mut r1, init, nunits, oneshot);
+                    cs.iter().map(|c| c.output.split('\t').filter(|l| !l.starts_with("R ") && !l.starts_with("Z ")).count()).sum() };
+                if total > 1 {
+                    let at = 1 + r.below(total as u64 - 1) as usize;
+                    let mut r2 = Rng::new(seed);
+                    let init = gen_init(&mut r2);
+                    let (_, carry) = run_history_crash(&mut r2, init, nunits, oneshot, at);
+                    let init2 = restart_init(&mut r, carry);
+                    let (more, _) = run_history(&mut r, init2, 1, false);
+                    let mut out = vec![];
+                    for mut c in more { c.class = format!("crash-restart-{}", c.class); out.push(c); }
+                    return out;
+                }
+            }
             let init = gen_init(&mut r);
             let (mut cases, carry) = run_history(&mut r, init, nunits, oneshot);
             // now and then the process "restarts": a new state machine on the storage the first one committed
@@ -580,7 +608,7 @@ pub fn run_fault(o: &Opts, rng: &mut Rng) -> Sink {
             let mut init = gen_init(&mut r);
             // storage failures are the point here: make them frequent
             let _ = &mut init;
-            let (cases, _) = run_history_opt(&mut r, init, nunits, oneshot, healthy);
+            let (cases, _) = run_history_opt(&mut r, init, nunits, oneshot, healthy, None);
             let mut vis = vec![]; let mut nerr = 0;
             for c in &cases {
                 for l in c.output.split('\t') {
@@ -649,7 +677,7 @@ pub fn run_ctl(o: &Opts, rng: &mut Rng) -> Sink {
                 envs.push(e);
             }
             { let mut h = hub.lock().unwrap(); h.units = envs.iter().skip(1).cloned().collect(); h.env = envs[0].clone(); }
-            let mut runner = Runner { hub: hub.clone(), stream: Box::pin(stream), handle: Some(handle), ctls: vec![], replies: vec![], flag, ended: false, polls: 0, stalled_wakeups: 0, contend: None, storage: None, app_set: None, contended: 0 };
+            let mut runner = Runner { hub: hub.clone(), stream: Box::pin(stream), handle: Some(handle), ctls: vec![], replies: vec![], flag, ended: false, polls: 0, stalled_wakeups: 0, contend: None, storage: None, app_set: None, contended: 0, crash_at: None };
             if kind == 0 {
                 // gone: run some units, then drop the machine (its stream) and ask
                 let before = r.below(nunits as u64 + 1) as usize;
